@@ -17,7 +17,7 @@ def h15a(c, K=3):
     removal): after every step every placed order is exactly once in the blotter and in each view, lookups return the very
     object, the live list holds every order that is not complete"""
     with cm.config_set(simulated=True):
-        rec, market, strategy = _sim_history(c, K, recount=False, coherence=True)
+        rec, market, strategy = _sim_history(c, K, recount=False, coherence=True, handicaps=(-1.5,))
         if len(list(market.blotter)) >= 2:
             c.cover("several-orders")
         if any(o.bet_id and o.trade.orders.index(o) > 0 for o in market.blotter):
@@ -119,7 +119,15 @@ def h15d(c, K=3):
     h11a(_Only(c, ("exactly-one-local-order", "orders-once", "lookup-identity", "view-once", "live-list-at-most-once", "incomplete-order-in-live-list", "bet-id-lookup", "view-entry", "live-list-entry", "no-exception")), K=K)
 
 
+def h15e(c):
+    """Betdaq polling around an in-flight request (C03 world): an order that is not complete never leaves the live list, whatever the poll says"""
+    from .c03 import h03b_betdaq
+    from .c06 import _Only
+    h03b_betdaq(_Only(c, ("betdaq.", "no-exception")))
+
+
 HARNESSES = [
+    Harness("H15e", h15e, pattern="P5 fault schedule as a variable", requires=["handled", "poll-in-flight"], outside=OUT, selfcheck=False),
     Harness("H15d", h15d, quick=dict(K=3), thorough=dict(K=4), pattern="P3/P5 schedule as a variable", requires=["run", "snapshot", "replaced-bet"], outside=OUT,
             max_paths=(400000, 5000000), wall_s=(300, 3000), selfcheck=False),
     Harness("H15a", h15a, quick=dict(K=3), thorough=dict(K=4), pattern="P3 bounded history", requires=["history", "several-orders"], outside=OUT,
